@@ -1663,9 +1663,6 @@ func toStatementApi(s *oc.Statement) *api.Statement {
 			return api.RouteAction_ROUTE_ACTION_UNSPECIFIED
 		}(),
 		Community: func() *api.CommunityAction {
-			if len(s.Actions.BgpActions.SetCommunity.SetCommunityMethod.CommunitiesList) == 0 {
-				return nil
-			}
 			action := api.CommunityAction_TYPE_UNSPECIFIED
 			switch oc.BgpSetCommunityOptionType(s.Actions.BgpActions.SetCommunity.Options) {
 			case oc.BGP_SET_COMMUNITY_OPTION_TYPE_ADD:
@@ -1674,6 +1671,11 @@ func toStatementApi(s *oc.Statement) *api.Statement {
 				action = api.CommunityAction_TYPE_REMOVE
 			case oc.BGP_SET_COMMUNITY_OPTION_TYPE_REPLACE:
 				action = api.CommunityAction_TYPE_REPLACE
+			}
+			// an action with an empty list is still an action: "replace" with
+			// nothing clears the attribute (ListPolicy reports it that way too)
+			if action == api.CommunityAction_TYPE_UNSPECIFIED {
+				return nil
 			}
 			return &api.CommunityAction{
 				Type:        action,
